@@ -9,7 +9,7 @@ L == [cpuRows |-> 4, nSegments |-> 5, maxLogSteps |-> 6, maxRC |-> 9,
                      [seg |-> 6, cells |-> 2, rowRatio |-> 4, enabled |-> FALSE]>>]      \* builtin 3: switched off, with a row ratio left set
 Base == [logSteps |-> 3, logTrace |-> 5, nSegments |-> 5, layoutOK |-> TRUE, rcMin |-> 2, rcMax |-> 7, usage |-> <<3, 2, 0>>]
 Copies(n, i) == (2^n.logTrace) \div L.builtins[i].rowRatio
-Simple == {"none", "logSteps+1", "logTrace+1", "logSteps=max-1,consistent", "logSteps=max,consistent", "segments-1", "segments+1", "layoutCode+1",
+Simple == {"none", "logSteps+ord2", "logSteps+1", "logTrace+1", "logSteps=max-1,consistent", "logSteps=max,consistent", "segments-1", "segments+1", "layoutCode+1",
            "rc:min>max", "rc:max=limit", "rc:max=limit+1", "rc:min=-1", "tinyTrace,usage=0", "tinyTrace,usage=1inst"}
 Devs == {<<"simple", 0, x>> : x \in Simple}
         \cup {<<"usage", i, u>> : i \in 1..2, u \in {"0", "1inst", "1inst+1cell", "copies", "copies+1", "-1cell", "-1inst"}}
@@ -18,6 +18,9 @@ Apply(dd) ==
   IF dd[1] = "simple" THEN LET d == dd[3] IN
   CASE d = "none" -> Base
     [] d = "logSteps+1" -> [Base EXCEPT !.logSteps = 4]
+    \* a huge declared exponent with 2^logSteps unchanged in the field (the harness adds the multiplicative order of 2): the
+    \* bound is on the declared exponent, not on the power
+    [] d = "logSteps+ord2" -> [Base EXCEPT !.logSteps = 1003]
     [] d = "logTrace+1" -> [Base EXCEPT !.logTrace = 6]
     [] d = "logSteps=max-1,consistent" -> [Base EXCEPT !.logSteps = 5, !.logTrace = 7, !.usage = <<0, 0, 0>>]
     [] d = "logSteps=max,consistent" -> [Base EXCEPT !.logSteps = 6, !.logTrace = 8, !.usage = <<0, 0, 0>>]
